@@ -1,13 +1,231 @@
-//! Harnesses on the module-private units of src/key_exchange/tripledh.rs.
+//! Harnesses on the module-private units of src/key_exchange/tripledh.rs (S10, S11).
 #![allow(dead_code, unsafe_code, missing_docs, unused_imports, static_mut_refs, clippy::all)]
 include!("/verif/harness/common/macros.rs");
 use super::*;
+use crate::keypair::SecretKey as _;
+use crate::messages::{CredentialRequest, CredentialResponse};
+use crate::opaque::MaskedResponse;
 use crate::verif_kani::harnesses;
 use crate::verif_kani::model::*;
 use crate::verif_kani::spec;
 use crate::verif_kani::spec_prims as sp;
 use crate::verif_kani::vk::*;
+use generic_array::typenum::U2 as TU2;
+
+fn pk_of(v: u8) -> PublicKey<G241> {
+    PublicKey::<G241>::deserialize(&[PK_TAG, v]).unwrap()
+}
+fn sk_of(v: u8) -> PrivateKey<G241> {
+    PrivateKey::<G241>::deserialize(&[v]).unwrap()
+}
+fn any_key() -> u8 {
+    let v = any_u8();
+    assume(v >= 1 && v <= 240);
+    v
+}
+
+/// S11 with a directly held key
+fn derive_case_direct() {
+    let (p1, p2, p3) = (any_key(), any_key(), any_key());
+    let (s1, s2, s3) = (any_key(), any_key(), any_key());
+    let ht = any_bytes::<8>();
+    let r = derive_3dh_keys::<MHash, G241, PrivateKey<G241>>(
+        TripleDhComponents { pk1: pk_of(p1), sk1: sk_of(s1), pk2: pk_of(p2), sk2: sk_of(s2), pk3: pk_of(p3), sk3: sk_of(s3) },
+        &ht,
+    );
+    check!(r.is_ok(), "key derivation succeeds");
+    if let Ok(k) = r {
+        let w = spec::derive_keys(&spec::ke_dh(s1, &[PK_TAG, p1]), &spec::ke_dh(s2, &[PK_TAG, p2]), &spec::ke_dh(s3, &[PK_TAG, p3]), &ht);
+        check!(eq_bytes(&k.0, &w.session_key), "session_key == Expand-Label(Extract(dh1||dh2||dh3), SessionKey, Hash(preamble))");
+        check!(eq_bytes(&k.1, &w.km2), "Km2 == Expand-Label(handshake_secret, ServerMAC, \"\")");
+        check!(eq_bytes(&k.2, &w.km3), "Km3 == Expand-Label(handshake_secret, ClientMAC, \"\")");
+        cover!(true, "reached");
+        core::mem::forget(k);
+    }
+}
+
+struct Ke2Inputs {
+    blinded: u8,
+    ke1: [u8; 34],
+    beta: u8,
+    masking_nonce: [u8; 32],
+    masked: [u8; 42],
+    client_s_pk: u8,
+    server_s_sk: u8,
+}
+
+fn ke2_case(ctx: &[u8], idu_explicit: bool) {
+    let blinded = any_u8();
+    let ke1 = any_bytes::<34>();
+    let beta = any_u8();
+    let masking_nonce = any_bytes::<32>();
+    let masked = any_bytes::<42>();
+    let cpk = any_key();
+    let ssk = any_key();
+    let idb = any_bytes::<2>();
+    let mut tape = Tape::symbolic();
+    let Ok(ke1m) = Ke1Message::<G241>::deserialize(&ke1) else { return };
+    let mr = MaskedResponse::<M>::deserialize(&masked);
+    let b_ga = GenericArray::from([blinded]);
+    let ke1_ga = GenericArray::clone_from_slice(&ke1);
+    let beta_ga = GenericArray::from([beta]);
+    let mn_ga = GenericArray::clone_from_slice(&masking_nonce);
+    let cpkb = [PK_TAG, cpk];
+    let spkb = spec::ke_public(ssk);
+    // identities as the caller (ServerLogin::start) builds them
+    let id_u_in = if idu_explicit { Input::<TU2, TU2>::from(&idb[..1]).unwrap() } else { Input::<TU2, TU2>::from_owned(GenericArray::from(cpkb)).unwrap() };
+    let id_s_in = Input::<TU2, TU2>::from_owned(GenericArray::from(spkb)).unwrap();
+    let r = <TripleDh as KeyExchange<MHash, G241>>::generate_ke2::<MOprf, _, PrivateKey<G241>>(
+        &mut tape,
+        CredentialRequest::<M>::serialize_iter(&b_ga, &ke1_ga),
+        CredentialResponse::<M>::serialize_without_ke(&beta_ga, &mn_ga, &mr),
+        ke1m,
+        pk_of(cpk),
+        sk_of(ssk),
+        id_u_in.iter(),
+        id_s_in.iter(),
+        ctx,
+    );
+    check!(r.is_ok(), "server key-exchange step succeeds");
+    let Ok(res) = r else { return };
+    let st = res.0.serialize(); // km3(8) | Hash(preamble||server_mac)(8) | session_key(8)
+    let msg = res.1.serialize(); // server_nonce(32) | server_e_pk(2) | server_mac(8)
+    check!(tape.pos == 33 && !tape.overrun, "exactly one key seed and one nonce are drawn");
+    // fresh ephemeral key and nonce, each from its own tape segment (either order)
+    let (seed_at, nonce_at) = if eq_bytes(&msg[0..32], &tape.buf[1..33]) { (0usize, 1usize) } else { (32usize, 0usize) };
+    check!(eq_bytes(&msg[0..32], &tape.buf[nonce_at..nonce_at + 32]), "server nonce is 32 fresh bytes from the caller's RNG");
+    let esk = spec::derive_dh_keypair(&[tape.buf[seed_at]]);
+    check!(eq_bytes(&msg[32..34], &spec::ke_public(esk)), "server ephemeral key = DeriveDiffieHellmanKeyPair(fresh seed)");
+    let mut l2 = [0u8; 75];
+    l2[0] = beta;
+    l2[1..33].copy_from_slice(&masking_nonce);
+    l2[33..75].copy_from_slice(&masked);
+    let mut ke1full = [0u8; 35];
+    ke1full[0] = blinded;
+    ke1full[1..35].copy_from_slice(&ke1);
+    let id_u: &[u8] = if idu_explicit { &idb[..1] } else { &cpkb };
+    let pre = spec::preamble(ctx, id_u, &ke1full, &spkb, &l2, &msg[0..32], &msg[32..34]);
+    let w = spec::server_ke(pre, esk, ssk, &ke1[32..34], &cpkb);
+    check!(eq_bytes(&msg[34..42], &w.server_mac), "server MAC == MAC(Km2, Hash(preamble)) over context, identities, request, response, nonce, key share");
+    check!(eq_bytes(&st[0..8], &w.km3), "pending state holds Km3");
+    check!(eq_bytes(&st[8..16], &w.transcript2), "pending state holds Hash(preamble || server_mac)");
+    check!(eq_bytes(&st[16..24], &w.session_key), "pending state holds the session key");
+    cover!(true, "reached");
+    core::mem::forget(res);
+}
+
+fn ke3_case(ctx: &[u8], idu_explicit: bool) {
+    let blinded = any_u8();
+    let ke1 = any_bytes::<34>();
+    let beta = any_u8();
+    let masking_nonce = any_bytes::<32>();
+    let masked = any_bytes::<42>();
+    let ke2 = any_bytes::<42>();
+    let ke1st = any_bytes::<33>();
+    let spk = any_key();
+    let csk = any_key();
+    let idb = any_bytes::<2>();
+    let Ok(ke2m) = Ke2Message::<MHash, G241>::deserialize(&ke2) else { return };
+    let Ok(ke1s) = Ke1State::<G241>::deserialize(&ke1st) else { return };
+    let mr = MaskedResponse::<M>::deserialize(&masked);
+    let b_ga = GenericArray::from([blinded]);
+    let ke1_ga = GenericArray::clone_from_slice(&ke1);
+    let beta_ga = GenericArray::from([beta]);
+    let mn_ga = GenericArray::clone_from_slice(&masking_nonce);
+    let cpkb = spec::ke_public(csk);
+    let spkb = [PK_TAG, spk];
+    let id_u_in = if idu_explicit { Input::<TU2, TU2>::from(&idb[..1]).unwrap() } else { Input::<TU2, TU2>::from_owned(GenericArray::from(cpkb)).unwrap() };
+    let id_s_in = Input::<TU2, TU2>::from_owned(GenericArray::from(spkb)).unwrap();
+    let r = <TripleDh as KeyExchange<MHash, G241>>::generate_ke3(
+        CredentialResponse::<M>::serialize_without_ke(&beta_ga, &mn_ga, &mr),
+        ke2m,
+        &ke1s,
+        CredentialRequest::<M>::serialize_iter(&b_ga, &ke1_ga),
+        pk_of(spk),
+        sk_of(csk),
+        id_u_in.iter(),
+        id_s_in.iter(),
+        ctx,
+    );
+    let mut l2 = [0u8; 75];
+    l2[0] = beta;
+    l2[1..33].copy_from_slice(&masking_nonce);
+    l2[33..75].copy_from_slice(&masked);
+    let mut ke1full = [0u8; 35];
+    ke1full[0] = blinded;
+    ke1full[1..35].copy_from_slice(&ke1);
+    let id_u: &[u8] = if idu_explicit { &idb[..1] } else { &cpkb };
+    let pre = spec::preamble(ctx, id_u, &ke1full, &spkb, &l2, &ke2[0..32], &ke2[32..34]);
+    let w = spec::client_ke(pre, ke1st[0], csk, &ke2[32..34], &spkb, &ke2[34..42]);
+    let mac_ok = eq_bytes(&w.expected_server_mac, &ke2[34..42]);
+    match r {
+        Ok(res) => {
+            check!(mac_ok, "client accepts only a server MAC over its own view of the whole transcript");
+            check!(eq_bytes(&res.0, &w.session_key), "client session key per RFC 9807 6.4.3");
+            check!(eq_bytes(&res.1.serialize(), &w.client_mac), "client MAC == MAC(Km3, Hash(preamble || server_mac))");
+            cover!(true, "accept");
+            core::mem::forget(res);
+        }
+        Err(e) => {
+            check!(!mac_ok, "the genuine server MAC is accepted");
+            check!(matches!(e, ProtocolError::InvalidLoginError), "a wrong server MAC is reported as InvalidLoginError");
+            cover!(true, "reject");
+        }
+    }
+    core::mem::forget(ke1s);
+}
 
 harnesses! {
-    fn tdh_placeholder [unwind = 4] { cover!(true, "reached"); }
+    fn s11_derive_3dh_keys [unwind = 36] { derive_case_direct(); }
+
+    /// S11/C18: the server's static DH goes through the external-key interface; a failing key => the same custom error
+    fn s11_derive_3dh_keys_external [unwind = 36] {
+        let (p1, p2, p3) = (any_key(), any_key(), any_key());
+        let (s1, s2, s3) = (any_key(), any_key(), any_key());
+        let ht = any_bytes::<8>();
+        let fail_at = any_usize();
+        assume(fail_at <= 2);
+        let code = any_u8();
+        xk_reset(fail_at, code);
+        let r = derive_3dh_keys::<MHash, G241, MSecretKey>(
+            TripleDhComponents { pk1: pk_of(p1), sk1: sk_of(s1), pk2: pk_of(p2), sk2: MSecretKey(s2), pk3: pk_of(p3), sk3: sk_of(s3) },
+            &ht,
+        );
+        check!(unsafe { XK_DH_CALLS } == 1 && unsafe { XK_PUBLIC_CALLS } == 0 && unsafe { XK_SER_CALLS } == 0, "exactly one Diffie-Hellman is asked of the external key, nothing else");
+        match r {
+            Ok(k) => {
+                check!(fail_at != 1, "a failing external key is not ignored");
+                let w = spec::derive_keys(&spec::ke_dh(s1, &[PK_TAG, p1]), &spec::ke_dh(s2, &[PK_TAG, p2]), &spec::ke_dh(s3, &[PK_TAG, p3]), &ht);
+                check!(eq_bytes(&k.0, &w.session_key) && eq_bytes(&k.1, &w.km2) && eq_bytes(&k.2, &w.km3), "same keys as with the key held directly");
+                cover!(true, "ok");
+                core::mem::forget(k);
+            }
+            Err(e) => {
+                check!(fail_at == 1, "the external key did not fail");
+                check!(matches!(e, ProtocolError::LibraryError(InternalError::Custom(XkError(c))) if c == code), "the external key's own error is returned");
+                cover!(true, "external key failure");
+            }
+        }
+    }
+
+    fn s10_generate_ke2_ctx0_default_ids [unwind = 46] { ke2_case(&[], false); }
+    fn s10_generate_ke2_ctx2_explicit_idu [unwind = 46] { let c = any_bytes::<2>(); ke2_case(&c, true); }
+    fn s10_generate_ke3_ctx0_default_ids [unwind = 46] { ke3_case(&[], false); }
+    fn s10_generate_ke3_ctx2_explicit_idu [unwind = 46] { let c = any_bytes::<2>(); ke3_case(&c, true); }
+
+    /// hkdf_expand_label == RFC 9807 Expand-Label (8-byte context); a 256-byte context is refused (C05/C12)
+    fn s10_expand_label_limits [unwind = 36] {
+        static Z: [u8; 256] = [0u8; 256];
+        let secret = any_bytes::<8>();
+        let r = hkdf_expand_label::<MHash>(&secret, STR_SESSION_KEY, &Z[..256]);
+        check!(r.is_err(), "a context that does not fit one length byte is refused");
+        cover!(r.is_err(), "256 refused");
+        let ctx = any_bytes::<8>();
+        let r = hkdf_expand_label::<MHash>(&secret, STR_SESSION_KEY, &ctx);
+        check!(r.is_ok(), "expand-label succeeds");
+        if let Ok(k) = r {
+            check!(eq_bytes(&k, &spec::expand_label(&secret, b"SessionKey", &ctx)), "Expand-Label per RFC 9807 6.4.2.2");
+            cover!(true, "ok");
+        }
+    }
 }
